@@ -532,9 +532,18 @@ def plan(seed: int, tier: str) -> list[dict]:
     for b in range(n_sql // sb):
         hs = [0, 1, 2, 3][b % 4]
         units.append({"key": {"hash_seed": hs}, "specs": [gen(master.randrange(2 ** 48), "sql") for _ in range(sb)], "wall_s": 300.0})
-    # interleave SQL units early so a budget cut does not starve them
-    units.sort(key=lambda u: 0 if u["specs"][0]["path"] == "sql" else 1)
-    return units
+    # interleave the two paths so that a budget cut starves neither
+    sql_u = [u for u in units if u["specs"][0]["path"] == "sql"]
+    hol_u = [u for u in units if u["specs"][0]["path"] != "sql"]
+    out = []
+    ratio = max(1, len(sql_u) // max(1, len(hol_u)))
+    while sql_u or hol_u:
+        for _ in range(ratio):
+            if sql_u:
+                out.append(sql_u.pop(0))
+        if hol_u:
+            out.append(hol_u.pop(0))
+    return out
 
 
 def shrink_candidates(spec):
